@@ -145,11 +145,26 @@ def run(ctx):
                         shape = rng.choice([lambda: ph, lambda: _q.Or([ph, _q.Term("t", c)]), lambda: _q.And([ph, _q.Term("t", c)]),
                                             lambda: _q.AndMaybe(ph, _q.Term("t", c)), lambda: _q.Or([ph, _q.Term("t", c, boost=2.0)])])
                         plan.append((shape(), rng.choice([1, 2, 3, 5])))
+                if staged or psz is not None:
+                    # array-union sweep: a boosted Or of 3-4 frequent words (buffered union) under And / AndMaybe / Or / DisMax
+                    # parents, which consult its max_quality / block_quality when they rewrite against the k-th score
+                    from whoosh import query as _q
+                    arng = ctx.rng(idx, "array-union-sweep")
+                    for _ in range(6):
+                        ws_ = arng.sample(model.VOCAB[:6], arng.choice([3, 3, 4]))
+                        au = _q.Or([_q.Term(arng.choice(["t", "t", "u"]), w_) for w_ in ws_], boost=arng.choice([1.0, 2.0, 5.0, 25.0, 0.5]))
+                        other = _q.Term("t", arng.choice(model.VOCAB[:5]), boost=arng.choice([1.0, 1.0, 3.0]))
+                        shape = arng.choice(["and", "and", "andmaybe", "andmaybe-rev", "or", "dismax", "require"])
+                        qq = {"and": lambda: _q.And([other, au]), "andmaybe": lambda: _q.AndMaybe(other, au),
+                              "andmaybe-rev": lambda: _q.AndMaybe(au, other), "or": lambda: _q.Or([other, au]),
+                              "dismax": lambda: _q.DisjunctionMax([other, au]), "require": lambda: _q.Require(au, other)}[shape]()
+                        plan.append((qq, arng.choice([1, 1, 2, 3, 5])))
+                        ctx.count("c05.array_union_sweep_queries")
                 for item in plan:
                     if item is not None:
                         q, k = item
                         opts, optnames = {}, ()
-                        ctx.count("c05.pair_sweep_queries")
+                        ctx.count("c05.pair_sweep_queries")   # (pair, positional and array-union sweeps)
                     else:
                         if rng.random() < (0.8 if staged else 0.4):
                             q = model.gen_skip_stress(rng)
